@@ -306,14 +306,15 @@ def sweep(E, field):
     # theta2 (fresh)
     F = build(E, 2, N, **kw)
     # theta1: other values for the field(s) that will be edited
-    S = build(E, 2, N, prefix='', **kw).S          # same symbols: start identical, then perturb and edit back through the public API
     fields = ['density', 'diameter', 'kT', 'potential', 'closure', 'omega', 'domain'] if field == 'all' else [field]
+    kw1 = dict(kw)
+    if 'diameter' in fields:
+        kw1['diam'] = {'A': 2, 'B': 2}              # theta1 is BUILT with another d_A; only A is re-assigned later
+    S = build(E, 2, N, prefix='', rho=({'A': F.rho['A'] * 7.0} if 'density' in fields else None), **kw1).S   # same symbols otherwise
     # a first PRISM object is created (and evaluated) for theta1 before the edits, as in a parameter sweep
     for f in fields:
-        if f == 'density':
-            S.density['A'] = F.rho['A'] * 7.0; S.density[['A', 'B']] = F.rho['B'] * 2.0
-        elif f == 'diameter':
-            S.diameter[['A', 'B']] = F.dr * 2
+        if f in ('density', 'diameter'):
+            pass                                      # built differently (see above)
         elif f == 'kT':
             S.kT = F.kT * 3.0
         elif f == 'potential':
@@ -330,9 +331,9 @@ def sweep(E, field):
     # edit to theta2
     for f in fields:
         if f == 'density':
-            S.density['A'] = F.rho['A']; S.density['B'] = F.rho['B']
+            S.density['A'] = F.rho['A']          # only the edited type is re-assigned: everything derived from it must follow
         elif f == 'diameter':
-            S.diameter['A'] = F.d['A']; S.diameter['B'] = F.d['B']
+            S.diameter['A'] = F.d['A']
         elif f == 'kT':
             S.kT = F.kT
         elif f == 'potential':
@@ -359,6 +360,14 @@ def sweep(E, field):
     for i in range(N):
         E.claim_eq('r[%d]' % i, Pe.sys.domain.r[i], Pf.sys.domain.r[i]); E.claim_eq('k[%d]' % i, Pe.sys.domain.k[i], Pf.sys.domain.k[i])
     ye = Pe.cost(x); yf = Pf.cost(x)
+    # the wiring entries proven equal above are abstracted (same value, possibly written differently, e.g. rhoB*rhoA):
+    # equal wiring => equal cost map
+    inter = []; lem = []
+    if E.sym:
+        for a_, b_ in ((Pe.omega.data, Pf.omega.data), (Pe.sys.density.pair.data, Pf.sys.density.pair.data)):
+            for idx in _np.ndindex(*b_.shape):
+                if hasattr(a_[idx], 'n') and hasattr(b_[idx], 'n'):
+                    inter += [a_[idx], b_[idx]]; lem.append((a_[idx], b_[idx]))
     for i in range(len(yf)):
-        E.claim_eq('cost[%d]' % i, ye[i], yf[i])
+        E.claim_eq('cost[%d]' % i, ye[i], yf[i], abstract=inter or None, lemmas=lem or None)
     E.claim('canary', E.eq(Pe.omega.data[0, 0, 0], Pf.omega.data[0, 0, 0] + 1.0), canary=True)
